@@ -46,7 +46,7 @@ ALPHABET = [
     ("lag:diff", 1), ("lag:same", 0), ("lag:out", 1), ("lag:any", 0),
     ("ar_order:diff", 1), ("ar_order:same", 0), ("ar_order:neg", 0), ("ar_order:big", 1), ("ar_order:none", 0),
     ("ar_order:zero", 0), ("ma_order:zero", 0), ("data:const", 0), ("data:zimag", 0), ("plot", 0), ("mutate_source", 0), ("copy:shallow", 0), ("copy:deep", 0),
-    ("ma_order:eq_ar", 0), ("ar_order:eq_ma", 0), ("alias_periodogram", 0),
+    ("ma_order:eq_ar", 0), ("ar_order:eq_ma", 0), ("alias_periodogram", 0), ("sampling:nonpositive", 0), ("data:tuple", 0), ("plot:fail", 0),
     ("ma_order:diff", 1), ("ma_order:same", 0), ("ma_order:neg", 0), ("ma_order:none", 0),
     ("npscalar:ar_order", 0), ("npscalar:ma_order", 0), ("npscalar:lag", 0), ("npscalar:sampling", 0),
     ("npscalar:scale", 0), ("npscalar:NFFT", 0),
@@ -57,7 +57,7 @@ ALPHABET = [
 ]
 ALPHA_NAMES = [a for a, _ in ALPHABET]
 CORE_NAMES = [a for a, c in ALPHABET if c]
-FAULTY = {"ma_order:eq_ar", "ar_order:eq_ma", "lag:any", "ar_order:zero", "ma_order:zero", "data:const", "sides:invalid", "NFFT:invalid", "NFFT:lt", "scale:invalid", "detrend:invalid", "window:invalid",
+FAULTY = {"sampling:nonpositive", "data:tuple", "plot:fail", "ma_order:eq_ar", "ar_order:eq_ma", "lag:any", "ar_order:zero", "ma_order:zero", "data:const", "sides:invalid", "NFFT:invalid", "NFFT:lt", "scale:invalid", "detrend:invalid", "window:invalid",
           "lag:out", "ar_order:neg", "ar_order:big", "ma_order:neg", "ma_order:none", "ar_order:none"}
 MODES = ("fault_free", "natural", "injected", "mixed")
 
@@ -124,6 +124,8 @@ def dec_data(d):
     a = dec_array(d)
     if d.get("c") == "list":
         return a.tolist()
+    if d.get("c") == "tuple":
+        return tuple(a.tolist())
     if d.get("c") == "f32":
         return a.astype(np.complex64 if np.iscomplexobj(a) else np.float32)
     return a
@@ -329,7 +331,8 @@ class Run(object):
         if k == "plot":
             import pylab
             try:
-                p.plot(norm=op.get("norm", False), sides=op.get("sides"))
+                kw = {"filename": "/nonexistent-directory-for-verif/x.png"} if op.get("fail") else {}
+                p.plot(norm=op.get("norm", False), sides=op.get("sides"), **kw)
             finally:
                 pylab.close("all")
             return None
@@ -385,6 +388,8 @@ class Run(object):
         pre_state = self.abstate()
         fired0 = self.plane.fired
         calls0 = self.plane.calls[0]
+        up_to_date_before = self.last_psd is not None and not self.reassigned and self.last_sides is not None
+        sides_before = self.last_sides
         before_attr = None
         if k == "set" and op["attr"] != "sides":
             try:
@@ -478,6 +483,19 @@ class Run(object):
             elif k == "read":
                 self.last_psd = None
                 self.reassigned = []
+
+        # ---- an observation (plot, str, power, get_converted_psd) of an up-to-date object changes nothing:
+        #      right after a successful psd read, with nothing but observations since, `sides` stays put
+        if viol is None and k in ("plot", "str", "power", "conv") and not fired and up_to_date_before:
+            self.bump("observation_purity_checked")
+            try:
+                now = (p.sides, p.NFFT)
+            except Exception:
+                now = None
+            if now != sides_before:
+                viol = Violation("pure_accessor", idx, "%s%s on an up-to-date object changed (sides, NFFT) from %r to %r"
+                                 % (describe({"cls": self.cls, "cplx": False, "data": {"v": []}, "init": {}, "const": {}}, [op]).split(" :: ")[1],
+                                    " (which raised %s)" % type(exc).__name__ if exc is not None else "", sides_before, now))
 
         # ---- a rejected assignment is a no-op on the attribute it was meant for -------------------
         if viol is None and k == "set" and exc is not None and not fired and recomputed == 0 \
@@ -710,7 +728,10 @@ def concretize(aname, rng, run):
             return None
         return {"op": "mutate_source", "value": enc_data(gen_signal(rng, len(src), bool(np.iscomplexobj(src))))}
     if head == "plot":
-        return {"op": "plot", "norm": rng.random() < 0.5, "sides": rng.choice([None, None, "twosided", "centerdc", "onesided"])}
+        op = {"op": "plot", "norm": rng.random() < 0.5, "sides": rng.choice([None, None, "twosided", "centerdc", "onesided"])}
+        if len(parts) > 1 and parts[1] == "fail":
+            op["fail"] = True           # a file name in a directory that does not exist: the plot raises at the end
+        return op
     if head == "conv":
         return {"op": "conv", "sides": parts[1]}
     if head == "inject":
@@ -756,6 +777,10 @@ def concretize(aname, rng, run):
             arr = gen_signal(rng, N + rng.choice([0, 0, 1]), not cplx)
         elif vc == "list":
             return {"op": "set", "attr": "data", "value": enc_data(gen_signal(rng, N, cplx), "list")}
+        elif vc == "tuple":
+            # a container the pinned data setter rejects (tuples have no .copy()); length and kind differ from the
+            # stored data so that a half-applied rejection shows
+            return {"op": "set", "attr": "data", "value": enc_data(gen_signal(rng, N + rng.choice([3, 7, -3]), not cplx), "tuple")}
         elif vc == "zimag":
             arr = gen_signal(rng, N, False).astype(complex)   # complex dtype, imaginary part identically zero
         elif vc == "const":
@@ -803,6 +828,10 @@ def concretize(aname, rng, run):
         return {"op": "set", "attr": "NFFT", "value": v}
     if head == "sampling":
         cur = p.sampling
+        if vc == "nonpositive":
+            # negative only: with 0 the pinned __call__ stores the PSD and then fails inside scale() (2*pi/df),
+            # i.e. the exception atomicity inside __call__ that section 4.3 deliberately does not demand
+            return {"op": "set", "attr": "sampling", "value": rng.choice([-1.0, -2, -0.5])}
         if vc == "double":
             return {"op": "set", "attr": "sampling", "value": cur * 2}
         if vc == "half":
@@ -1166,7 +1195,7 @@ def describe(cfg, ops):
         elif k == "read":
             out.append("psd")
         elif k == "plot":
-            out.append("plot(norm=%r, sides=%r)" % (o.get("norm"), o.get("sides")))
+            out.append("plot(norm=%r, sides=%r%s)" % (o.get("norm"), o.get("sides"), ", unwritable file" if o.get("fail") else ""))
         elif k == "mutate_source":
             out.append("<caller overwrites the array it assigned to data, in place>")
         elif k == "copy":
